@@ -48,6 +48,8 @@ implementation's own final state).
   change).  Hypothesis `frontOKb`: decidable facts about the front end's output, evaluated by
   every certificate run.  Findings F30–F34 (stale frozen encodings) are the counterexamples the
   proof obligations produced while this theorem was being stated.
+* `every_emitted_instruction_is_unique_smallest` — the end-to-end clause for instructions with the
+  exception removed: it now holds of every instruction of every successfully assembled program.
 -/
 namespace Casm.C02
 
@@ -401,5 +403,37 @@ theorem front_end_never_clashes (opts : Opts) (fs : SrcFiles) (roots : List (Lis
 
 /-- `NoClash` is also decidable; the certificate of every correspondence run evaluates it -/
 theorem noClash_of_refsWF (nodes : List AstNode) (h : refsWF nodes = true) : NoClash nodes := refsWF_noClash nodes h
+
+
+/-- unfreezing changes neither symbols nor encodings -/
+theorem nodesOK_unfreeze (d : Defs) (nodes : List AstNode) (h : NodesOK d nodes) : NodesOK d.unfreeze nodes :=
+  fun n hn => (NodeOK_congr (d := d) (d' := d.unfreeze) rfl n).mpr (h n hn)
+
+/-- **The statement of C02 for instructions, end to end and without exception.**  Whenever the
+    optimised assembler succeeds (budget ≥ 2), *every* instruction of the program — whether or not
+    the static optimisation froze it in the first pass — satisfies: evaluating all its candidate
+    rules on the final state, at the instruction's own position, in strict mode, resolves some of
+    them; exactly one of those has the smallest size; and that one is the emitted encoding. -/
+theorem every_emitted_instruction_is_unique_smallest (opts : Opts) (fs : SrcFiles) (roots : List (List Char)) (res : AsmOk)
+    (hb : 2 ≤ opts.maxIter) (ho : opts.optStatic = true) (h : assemble opts fs roots = .ok res) :
+    ∃ st nodes defs0 d, frontEnd opts fs roots = .ok (st, nodes, defs0) ∧ ReadFrom st nodes d res ∧
+      ∀ (pre post : List AstNode) (src : List Char) (ref : Nat), nodes = pre ++ AstNode.instr src (some ref) :: post →
+        ref < d.instrs.length →
+        ∃ (ctx : RCtx) (rs : List Resolution) (c : ECtx) (i : Nat),
+          ctx.first = false ∧ ctx.last = true ∧
+          resolveMatches st d.unfreeze (evalFuel - 1) ctx ((d.instrs.getD ref default).cands.map (·.m)) {} [] = .ok (rs, c) ∧
+          chooseEncoding false rs = (some [(i, (d.instrs.getD ref default).encoding)], []) ∧
+          (∀ j b, j < rs.length → rs.getD j .unresolved = .resolved b →
+            (d.instrs.getD ref default).encoding.size.getD 0 ≤ b.size.getD 0) := by
+  obtain ⟨st, nodes, defs0, d, hf, hread, hfull⟩ := success_recomputes_everything opts fs roots res hb ho h
+  refine ⟨st, nodes, defs0, d, hf, hread, fun pre post src ref hsplit hin => ?_⟩
+  have hwf : NoClash nodes := frontEnd_noClash opts fs roots st nodes defs0 hf
+  have hok : NodesOK d.unfreeze nodes := pass_establishes_ok st nodes false true d.unfreeze d.unfreeze true [] hfull hwf
+  have hin' : ref < d.unfreeze.instrs.length := by simpa [Defs.unfreeze] using hin
+  have hun : (d.unfreeze.instrs.getD ref default).resolved = false := by rw [unfreeze_instr]
+  obtain ⟨ctx, rs, c, i, h1, h2, h3, h4, h5⟩ :=
+    emitted_instruction_is_unique_smallest st nodes d.unfreeze hfull hok pre post src ref hsplit hin' hun
+  rw [unfreeze_instr] at h3 h4 h5
+  exact ⟨ctx, rs, c, i, h1, h2, h3, h4, h5⟩
 
 end Casm.C02
